@@ -6,7 +6,8 @@
   * `script_usable` / `script_unusable`: the script as a concrete list;
   * `runUntil_usable_cases`: the five possible files left behind over a usable segment;
   * `runAll_usable` / `runAll_unusable`: the file after a complete start-up + first publication;
-  * `runUntil_unusable_prefix`: the file left behind while an unusable file is being re-created;
+  * `runUntil_unusable_prefix` / `runUntil_unusable_suffix`: the file left behind while an unusable
+    file is being re-created / once the first publication over the re-created file has started;
   * generation arithmetic and `ReaderA.snap` facts.
 -/
 import ClockBound.Model.Crash
@@ -126,6 +127,25 @@ theorem runUntil_unusable_prefix (f : FileA) (rec : List Nat) (k : Nat) (h : f.u
   rcases hj' with rfl | rfl | rfl | rfl | rfl | rfl | rfl | rfl | rfl | rfl | rfl | rfl | rfl | rfl |
     rfl | rfl <;> simp [wipeEvs, tailEvs, effectBefore]
 
+/-- once the first generation store of the first publication over a re-created file has taken
+    effect, the file left behind is the freshly laid out one: in-flight (odd) generation over the
+    zeroed payload, in-flight generation over the copied record, or the completed publication -/
+theorem runUntil_unusable_suffix (f : FileA) (rec : List Nat) (k : Nat) (h : f.usable = false)
+    (hk : 15 + hdrLoads f < k) :
+    (runUntil f rec k).1 = { finalFresh (List.replicate 7 0) with gen := 1 } ∨
+    (runUntil f rec k).1 = { finalFresh rec with gen := 1 } ∨
+    (runUntil f rec k).1 = finalFresh rec := by
+  rw [runUntil_fst, script_unusable f h, List.take_succ_cons, List.foldl_cons,
+    show effectBefore rec f .newStart = f from rfl, List.take_append, List.foldl_append,
+    List.take_replicate, foldl_hdrLoad, List.length_replicate]
+  generalize hj : k - hdrLoads f = j
+  have hj' : j = 16 ∨ j = 17 ∨ j = 18 ∨ 19 ≤ j := by omega
+  rcases hj' with rfl | rfl | rfl | hj'
+  case inr.inr.inr =>
+    rw [List.take_of_length_le (by simp [wipeEvs, tailEvs]; omega)]
+    simp [wipeEvs, tailEvs, effectBefore, finalFresh, genStart, genFinish]
+  all_goals simp [wipeEvs, tailEvs, effectBefore, finalFresh, genStart]
+
 /-! ### generation arithmetic -/
 
 theorem genStart_odd (g : Nat) : genStart g % 2 = 1 := by
@@ -178,6 +198,24 @@ theorem openText_usable (f : FileA) (h : f.usable = true) : openText f = "ok" :=
   have h7' : ¬ f.size < 72 := by omega
   simp [openText, h1, h2', h3, h4, h5, h6, h7']
 
+/-- `ShmReader::new` fails on every unusable file -/
+theorem openText_unusable (f : FileA) (h : f.usable = false) : openText f ≠ "ok" := by
+  have hn : ¬ (f.present = true ∧ 16 ≤ f.len ∧ f.magic0 = true ∧ f.magic1 = true ∧ f.version ≠ 0 ∧
+      f.gen ≠ 0 ∧ 72 ≤ f.size) := by
+    intro hc; rw [(usable_iff f).2 hc] at h; exact Bool.noConfusion h
+  unfold openText
+  repeat' split
+  all_goals first | decide | (exfalso; apply hn; simp_all <;> omega)
+
+/-- the first `snapshot()` of a freshly attached reader: its empty initial record while the segment is
+    uninitialised or an update is in flight, the segment's payload otherwise -/
+theorem snap_fresh_cache (f : FileA) : (({} : ReaderA).snap f).cache =
+    if f.version = 0 ∨ f.gen = 0 ∨ f.gen % 2 = 1 then List.replicate 7 0 else f.cells := by
+  unfold ReaderA.snap
+  by_cases h : f.version = 0 ∨ f.gen = 0 ∨ f.gen % 2 = 1
+  · rw [if_pos h, if_pos (by rcases h with h | h | h <;> simp [h])]
+  · rw [if_neg h, if_neg (by intro hc; apply h; rcases hc with hc | hc | hc | hc <;> simp_all)]
+
 /-! ### the fields of `predict`, in terms of `runUntil` / `runAll` -/
 
 section predict
@@ -193,6 +231,9 @@ theorem predict_fresh :
 theorem predict_open1 : (predict p k k1 k2).open1 = openText (pf1 p k k1) := rfl
 theorem predict_len1 :
     (predict p k k1 k2).len1 = if (pf1 p k k1).present then ((pf1 p k k1).len : Int) else -1 := rfl
+theorem predict_fresh1 :
+    (predict p k k1 k2).fresh1 =
+      if openText (pf1 p k k1) ≠ "ok" then "none" else cellsText (({} : ReaderA).snap (pf1 p k k1)).cache := rfl
 theorem predict_inodeSame : (predict p k k1 k2).inodeSame = p.file.present := rfl
 theorem predict_len2 : (predict p k k1 k2).len2 = ((pf2 p k k1 k2).len : Int) := rfl
 
